@@ -38,7 +38,11 @@ export VH_CHECKED_EXE="$B/harness/checked/vh"
 export VH_OVF_EXE="$B/harness/ovf/vh"
 
 if [ "$ID" = replay ]; then
-  build_harness release || inconclusive "harness build failed"
+  if ! build_harness release; then
+    ( cd "$VERIF_ROOT/harness" && cargo build -q --release --offline --features driver_only --target-dir "$B/harness-drv" ) \
+        > "$B/build-harness-drv.log" 2>&1 || inconclusive "harness build failed"
+    VH="$B/harness-drv/release/vh"
+  fi
   build_harness checked || true
   build_engine rel || true
   build_engine chk || true
@@ -51,10 +55,22 @@ case "$ID" in
 esac
 case "$TIER" in quick|thorough) ;; *) TIER=quick;; esac
 
-build_harness release || inconclusive "harness build failed (does /repo still compile with $GUARD?)"
+if ! build_harness release; then
+  # the engine sources no longer compile into the harness (API change?): fall back to the
+  # driver-only build, which monitors the real binary only and never reports "held" for a
+  # property whose in-process part could not run
+  ( cd "$VERIF_ROOT/harness" && cargo build -q --release --offline --features driver_only --target-dir "$B/harness-drv" ) \
+      > "$B/build-harness-drv.log" 2>&1 || inconclusive "harness build failed (does /repo still compile with $GUARD?)"
+  VH="$B/harness-drv/release/vh"
+  DRIVER_ONLY=1
+  echo "NOTE: engine sources do not compile into the harness; running the binary-level monitors only"
+fi
+DRIVER_ONLY="${DRIVER_ONLY:-0}"
+if [ "$DRIVER_ONLY" = 0 ]; then
 case "$ID" in
   C08|C15|C17) build_harness checked || inconclusive "checked harness build failed";;
 esac
+fi
 case "$ID" in
   C01|C06|C07|C08|C10|C12|C13|C14|C15|C17|C18|C19|C20)
     build_engine rel || inconclusive "engine build failed"
